@@ -4,11 +4,13 @@ World *make_world_q();
 World *make_world_h();
 World *make_world_l();
 World *make_world_si();
+World *make_world_so();
 World *make_world(const std::string &name) {
   if (name == "Q") return make_world_q();
   if (name == "H") return make_world_h();
   if (name == "L") return make_world_l();
   if (name == "SI") return make_world_si();
+  if (name == "SO") return make_world_so();
   return nullptr;
 }
 }  // namespace sim
